@@ -9,7 +9,7 @@ mkdir -p "$C"
 if [ ! -x "$C/$H/e1" ]; then
   W=$(mktemp -d "$C/build.XXXXXX")
   trap 'rm -rf "$W"' EXIT
-  [ -x /verif/bin/instr ] || (cd /verif/instr && go build -o /verif/bin/instr .)
+  (cd /verif/instr && go build -o "$W/instr" . && mkdir -p /verif/bin && mv "$W/instr" /verif/bin/instr)
   if ! /verif/scripts/build_e1.sh "$W" 2>"$W/build.log"; then
     cat "$W/build.log" >&2
     echo "INCONCLUSIVE: instrumented build failed" >&2
